@@ -799,8 +799,13 @@ def builtin(I, name, a, kwargs, node, _no_override=False):
     if name == "slice" and a and all(isinstance(x, Const) for x in a) and not kwargs:
         return Const(slice(*[x.v for x in a]))
     if name == "range":
-        if all(isinstance(x, Const) for x in a):
-            return ListLit([Const(i) for i in range(*[x.v for x in a])])
+        if all(isinstance(x, Const) and isinstance(x.v, int) and not isinstance(x.v, bool) for x in a) and a:
+            try:
+                r_ = range(*[x.v for x in a])
+            except (TypeError, ValueError) as e:
+                raise _Raise(f"{type(e).__name__}: {e}", [type(e).__name__, "Exception", "BaseException", "object"])
+            # a range object: sliceable, with start / stop / step, iterated like the list of its members
+            return Const(r_) if len(r_) <= 100000 else Top("range too long for the model")
         return Top("range")
     if name == "iter" and len(a) == 1 and not kwargs:
         if isinstance(a[0], Obj) and a[0].cls == "iterator":
